@@ -56,8 +56,11 @@ func genNormalised(src string) (string, error) {
 	if err != nil {
 		return "", err
 	}
-	return lineColRe.ReplaceAllString(string(out), "Line: 0, Col: 0"), nil
+	// blank lines are layout of the embedded Go code (the formatter may attach a comment to the template that follows it)
+	return blankLinesRe.ReplaceAllString(lineColRe.ReplaceAllString(string(out), "Line: 0, Col: 0"), "\n"), nil
 }
+
+var blankLinesRe = regexp.MustCompile(`\n(?:[ \t]*\n)+`)
 
 // templateBodies serialises the body of every HTML template of a file, in order.
 func templateBodies(src string) ([]string, bool) {
@@ -171,7 +174,16 @@ func repoTemplates() []string {
 
 // fmtSeeds: template bodies that witnessed formatter defects (repaired or recorded) or that seeded changes needed
 // in order to manifest; they run first on every check.
+// fmtFileSeeds: whole files (file-level layout) that witnessed formatter defects.
+var fmtFileSeeds = []string{
+	"package x\n\nvar a = 1\n\t// c\n\ntempl T() {\n\t<p>x</p>\n}\n",
+	"package x\n\n// doc\ntempl A() {\n\t<p>x</p>\n}\n\nfunc f() int {\n\treturn 1 // t\n}\n   // c2\ntempl B() {\n\t<i>y</i>\n}\n",
+}
+
 var fmtSeeds = []string{
+	"{! leaf( s ) }",
+	"<p\n\t\tdata-x={\n\t\t\t`a\nb`,\n\t\t}\n\t>x</p>",
+	"<p\n\t\ttitle={\n\t\t\ts, /* c1\n c2 */\n\t\t}\n\t>x</p>",
 	"<h2>{ // only\n\t}</h2>",
 	"<h1>a{\n\t\t// go comment\n\t}<!--c--></h1>",
 	`<section title={ s }>{ children... }</section>`,
@@ -284,6 +296,10 @@ func runFmt(e *emitter, tier string, seed uint64, prop string) {
 		src := tgenPrelude + "templ T0(" + tgenSig + ") {\n\t" + b + "\n}\n"
 		do(src, "seed")
 		do(strings.ReplaceAll(src, "\n", "\r\n"), "seed")
+	}
+	for _, f := range fmtFileSeeds {
+		do(f, "seed")
+		do(strings.ReplaceAll(f, "\n", "\r\n"), "seed")
 	}
 	r := &rng{s: seed}
 	n := 2500
